@@ -268,9 +268,9 @@ async def run_sequence(backend, steps, counters, seq_seed):
                 nontrivial.append(h([backend, "resubmit", raw.get("kind") if isinstance(raw, dict) else None]))
                 if was_stored:
                     if cur_canon != prev_canon:
-                        viols.append({"key": "resubmit/store-changed", "msg": "[%s] resubmitting stored event %s changed the store" % (backend, str(rid)[:12]), "replay": rp})
+                        viols.append({"key": "%s/resubmit/store-changed" % backend, "msg": "[%s] resubmitting stored event %s changed the store" % (backend, str(rid)[:12]), "replay": rp})
                     if any(p.get("id") == rid for p in pushed):
-                        viols.append({"key": "resubmit/pushed-again", "msg": "[%s] resubmitting stored event %s (kind %s) was pushed to subscribers again (OK=%s %r)"
+                        viols.append({"key": "%s/resubmit/pushed-again" % backend, "msg": "[%s] resubmitting stored event %s (kind %s) was pushed to subscribers again (OK=%s %r)"
                                       % (backend, str(rid)[:12], raw.get("kind"), ok, reason), "replay": rp})
             if len(samples) < 2 and si > 3:
                 samples.append({"backend": backend, "class": cls, "ok": ok, "reason": reason, "stored_after": isinstance(rid, str) and rid in cur["events"]})
